@@ -466,6 +466,10 @@ def record_and_validate(ctx, world, module, cfg, n, shards=8, name=None, timeout
     return validated
 
 
+def _keep(clause, keep_prefix):
+    return clause.startswith(tuple(keep_prefix) if isinstance(keep_prefix, (tuple, list)) else keep_prefix)
+
+
 def record_and_monitor(ctx, world, module, cfg, runs, keep_prefix, shards=8, name=None, timeout=1200, race=False, record_args=()):
     """E3 for stateful worlds: the harness records `runs` randomized runs of the real code as one labelled event
     trace (runs separated by Reset events); TLC validates it against the observer specification `module`.
@@ -515,7 +519,7 @@ def record_and_monitor(ctx, world, module, cfg, runs, keep_prefix, shards=8, nam
                 j -= 1
             reset = json.loads(chunk[j])["in"]
             badruns.add((reset.get("seed"), reset.get("run")))
-            if not clause.startswith(keep_prefix):
+            if not _keep(clause, keep_prefix):
                 continue
             ev = json.loads(chunk[l - 1])
             ctx.violations.append({"sig": "monitor:" + re.sub(r"[^a-z0-9]+", "-", clause.lower())[:60],
